@@ -72,25 +72,45 @@ def gen_nonfunc(p):
     o.append("\t\t\tswitch mode {")
     o.append("\t\t\tcase 0:\n\t\t\t\tp.AppendIRI(u)\n\t\t\tcase 1:\n\t\t\t\tp.PrependIRI(u)\n\t\t\tcase 2:\n\t\t\t\tp.InsertIRI(idx, u)\n\t\t\tcase 3:\n\t\t\t\tp.SetIRI(idx, u)\n\t\t\t}")
     o.append("\t\t\treturn vfElem{0, u.String()}")
-    for j, (k, t) in enumerate(ks, start=1):
-        expr, how = sample(t, "k%d" % j)
-        o.append("\t\tcase %d:" % j)
+    # case numbering: 0 IRI, 1 first sampled kind, 2 the generic vocab.Type mutators (same kind of value), then the second sampled kind
+    tk = [(k, t) for (k, t) in ks[:1] if sample(t, "x")[1] == "type"]
+    order = []
+    if ks:
+        order.append(("kind", ks[0]))
+    if p["hasType"] and tk:
+        order.append(("generic", tk[0]))
+    if len(ks) > 1:
+        order.append(("kind", ks[1]))
+    kindcase = {}
+    for c, (what, (k, t)) in enumerate(order, start=1):
+        expr, how = sample(t, "k%d" % c)
+        o.append("\t\tcase %d:" % c)
         o.append("\t\t\tv := %s" % expr)
-        o.append("\t\t\tswitch mode {")
+        if what == "generic":
+            o.append("\t\t\tvar err error")
+            o.append("\t\t\tswitch mode {")
+            o.append("\t\t\tcase 0:\n\t\t\t\terr = p.AppendType(v)\n\t\t\tcase 1:\n\t\t\t\terr = p.PrependType(v)\n\t\t\tcase 2:\n\t\t\t\terr = p.InsertType(idx, v)\n\t\t\tcase 3:\n\t\t\t\terr = p.SetType(idx, v)\n\t\t\t}")
+            o.append("\t\t\tvfAssert(err == nil, \"generic-type-mutator-rejected-an-admissible-value\")")
+            o.append("\t\t\treturn vfElem{%d, vfTypeID(v)}" % kindcase[k])
+            continue
+        kindcase[k] = c
         setname = "Set%s" % k if ("\tSet%s(idx int" % k) in p["body"] else "Set"
+        o.append("\t\t\tswitch mode {")
         o.append("\t\t\tcase 0:\n\t\t\t\tp.Append%s(v)\n\t\t\tcase 1:\n\t\t\t\tp.Prepend%s(v)\n\t\t\tcase 2:\n\t\t\t\tp.Insert%s(idx, v)\n\t\t\tcase 3:\n\t\t\t\tp.%s(idx, v)\n\t\t\t}" % (k, k, k, setname))
         if how == "type":
-            o.append("\t\t\treturn vfElem{%d, vfTypeID(v)}" % j)
+            o.append("\t\t\treturn vfElem{%d, vfTypeID(v)}" % c)
         elif how == "url":
-            o.append("\t\t\treturn vfElem{%d, v.String()}" % j)
+            o.append("\t\t\treturn vfElem{%d, v.String()}" % c)
         else:
-            o.append("\t\t\treturn vfElem{%d, \"\"}" % j)
+            o.append("\t\t\treturn vfElem{%d, \"\"}" % c)
+    K = 1 + len(order)
     o.append("\t\t}")
     o.append("\t\treturn vfElem{}")
     o.append("\t}")
     o.append("\tL := vfParam(\"len\", 2)")
-    o.append("\tK := 1 + vfParam(\"kinds\", %d)" % len(ks))
+    o.append("\tK := 1 + vfParam(\"kinds\", %d)" % (K - 1))
     o.append("\tif K > %d {\n\t\tK = %d\n\t}" % (K, K))
+
     o.append("\tfor step := 0; step < L; step++ {")
     o.append("\t\tn := len(model)")
     o.append("\t\tswitch vfChoose(\"op\", 6) {")
@@ -107,7 +127,8 @@ def gen_nonfunc(p):
     o.append("\t\tif it == nil {\n\t\t\tvfAssert(false, where+\":nil-element\")\n\t\t\treturn\n\t\t}")
     o.append("\t\tvfAssert(it.IsIRI() == (e.kind == 0), where+\":is-iri\")")
     o.append("\t\tif e.kind == 0 {\n\t\t\tvfAssert(it.GetIRI() != nil && it.GetIRI().String() == e.key, where+\":iri-value\")\n\t\t}")
-    for j, (k, t) in enumerate(ks, start=1):
+    for (k, t) in ks:
+        j = kindcase[k]
         expr, how = sample(t, "x")
         o.append("\t\tvfAssert(it.Is%s() == (e.kind == %d), where+\":is-%s\")" % (k, j, k))
         getname = "Get%s" % k if ("\tGet%s()" % k) in p["itbody"] else "Get"
